@@ -1507,6 +1507,8 @@ def _native(f, args, kw):
                 return list_index(slf, *args)
             if isinstance(slf, list) and name == 'count':
                 return m_sum([compare('==', x, args[0]) for x in slf])
+        if name == 'fromkeys' and slf is dict and args and not deep_sym(list(args[0])):
+            return f(*args, **kw)         # concrete keys, one (possibly symbolic) value shared by all of them
         if f is functools.reduce:
             return _reduce(*args)
         if isinstance(f, (operator.attrgetter, operator.itemgetter, operator.methodcaller)):
